@@ -35,28 +35,40 @@ Theorem C17_test_asserts_lost_pre : exists a, sections_wf a = true /\ written_sh
 Proof. exact test_asserts_lost_pre. Qed.
 
 (** Values as JSON (ArrayRep / F64Rep / Value untagged enums, serde's first-variant-that-parses
-    rule): a value meeting [plain_json] reads back as itself - [norm v]: same shape, same element
-    class, same data up to the storage of empty number arrays and NaN payloads - at any depth ... *)
-Theorem C17_value_json_roundtrip_fuel : forall v, wf_shape v = true -> plain_json v = true ->
-  forall fuel, (vdepth v <= fuel)%nat -> of_json_fuel fuel (to_json v) = Some (MV (norm v) None None).
+    rule), CURRENT representation (after /repo c00f690, 6da1960, 1df8995, 41a5003):
+    decode (encode v) = v for EVERY value - numbers with any NaN sign and payload, infinities, -0,
+    bytes, complex numbers with any parts, characters, strings including the reserved spellings,
+    boxes at any depth - up to [norm]: an empty number array comes back with byte storage (same
+    shape, same class, equal as a uiua value).  The premises are invariants of the encoding of
+    uiua values as terms (data length = product of the shape, bytes <= 255, binary64 patterns
+    < 2^64), not restrictions on the uiua value. *)
+Theorem C17_value_json_roundtrip_fuel : forall v, wf_shape v = true -> repr_ok v = true ->
+  forall fuel, (vdepth v <= fuel)%nat -> of_json_fuel true fuel (to_json true v) = Some (MV (norm v) None None).
 Proof. exact value_json_roundtrip_fuel. Qed.
-Theorem C17_value_json_roundtrip : forall v, wf_shape v = true -> plain_json v = true -> (vdepth v <= 12)%nat ->
-  of_json (to_json v) = Some (MV (norm v) None None).
+Theorem C17_value_json_roundtrip : forall v, wf_shape v = true -> repr_ok v = true -> (vdepth v <= 12)%nat ->
+  of_json true (to_json true v) = Some (MV (norm v) None None).
 Proof. exact value_json_roundtrip. Qed.
+Theorem C17_value_json_roundtrip_exact : forall v, wf_shape v = true -> repr_ok v = true ->
+  no_empty_num v = true -> (vdepth v <= 12)%nat -> of_json true (to_json true v) = Some (MV v None None).
+Proof. exact value_json_roundtrip_exact. Qed.
 Theorem C17_value_norm_shape : forall v, shape_of (norm v) = shape_of v /\ elem_class (norm v) = elem_class v /\
   data_len (norm v) = data_len v.
 Proof. intros v. split; [apply norm_shape | split; [apply norm_class | apply norm_len]]. Qed.
 
-(** ... and the premises of [plain_json] are exactly where the current (un)tagging is ambiguous.
-    Records of the (open) defects: *)
-Theorem C17_value_json_refuted_string :
-  exists v m', of_json (to_json v) = Some m' /\ mval_same m' (MV v None None) = false /\
+(** Records of the defects repaired by those commits (model of the representation before them): *)
+Theorem C17_value_json_refuted_string_pre :
+  exists v m', of_json false (to_json false v) = Some m' /\ mval_same m' (MV v None None) = false /\
                m' = MV (VNum [] [F_NAN_BITS]) None None.
-Proof. exact value_json_refuted_string. Qed.
-Theorem C17_value_json_refuted_complex : exists v, of_json (to_json v) = None.
-Proof. exact value_json_refuted_complex. Qed.
+Proof. exact value_json_refuted_string_pre. Qed.
+Theorem C17_value_json_refuted_complex_pre : exists v, of_json false (to_json false v) = None.
+Proof. exact value_json_refuted_complex_pre. Qed.
+Theorem C17_value_json_refuted_nan_pre :
+  exists x, of_json false (to_json false (VNum [] [x])) = Some (MV (VNum [] [F_NAN_BITS]) None None) /\ x <> F_NAN_BITS.
+Proof. exact value_json_refuted_nan_pre. Qed.
+(** Still open, outside [value] (map keys are metadata): a map with character keys over an empty
+    box array of rank 2 reads back as a malformed character array. *)
 Theorem C17_value_json_refuted_map :
-  exists m j m', mto_json m = Some j /\ of_json j = Some m' /\ mval_same m' m = false.
+  exists m j m', mto_json true m = Some j /\ of_json true j = Some m' /\ mval_same m' m = false.
 Proof. exact value_json_refuted_map. Qed.
 
 (** non-vacuity: a non-trivial assembly meets the premises *)
@@ -67,8 +79,8 @@ Example C17_nonvacuous :
 Proof. vm_compute. repeat split; reflexivity. Qed.
 
 Example C17_nonvacuous_value :
-  let v := VBox [2%nat] [VChar [2%nat] [104;105]; VBox [1%nat;2%nat] [VNum [0%nat] []; VCplx [] [(4607182418800017408, 0)]]] in
-  wf_shape v = true /\ plain_json v = true /\ (vdepth v <= 12)%nat /\ of_json (to_json v) = Some (MV (norm v) None None).
+  let v := VBox [2%nat] [VChar [3%nat] S_NAN; VBox [1%nat;2%nat] [VNum [0%nat] []; VCplx [] [(F_NAN_BITS, 18444492273895866368)]]] in
+  wf_shape v = true /\ repr_ok v = true /\ (vdepth v <= 12)%nat /\ of_json true (to_json true v) = Some (MV (norm v) None None).
 Proof. vm_compute. repeat split; try reflexivity. repeat constructor. Qed.
 
 Print Assumptions C17_framing_roundtrip.
@@ -79,6 +91,8 @@ Print Assumptions C17_framing_roundtrip_pre.
 Print Assumptions C17_framing_refuted_pre.
 Print Assumptions C17_framing_roundtrip_mid.
 Print Assumptions C17_test_asserts_lost_pre.
-Print Assumptions C17_value_json_refuted_string.
-Print Assumptions C17_value_json_refuted_complex.
+Print Assumptions C17_value_json_roundtrip_exact.
+Print Assumptions C17_value_json_refuted_string_pre.
+Print Assumptions C17_value_json_refuted_complex_pre.
+Print Assumptions C17_value_json_refuted_nan_pre.
 Print Assumptions C17_value_json_refuted_map.
